@@ -1444,7 +1444,9 @@ def make_case(rng, malformed=False, depth=None, collide=0.0):
         q = g.path(tgt, nlits, pool)[0]
         if q:
           pairs.append([q, rng.choice(values)])
-      uniq = len({repr(q).replace("'x'", "'i'") for q, _ in pairs}) == len(pairs)   # Index(1) == 1 as a dict key
+      # `asdict` builds a Python dict keyed by the Key tuples: paths that are EQUAL as tuples would collapse into one
+      # entry — Index(1) == 1, and Reserved('SELF') == 'SELF' (the reserved key and the plain str of that spelling)
+      uniq = len({repr([({'s': k} if isinstance(k, str) else k) for k in q]).replace("'x'", "'i'") for q, _ in pairs}) == len(pairs)
       nolit = not any(isinstance(x, dict) and 'l' in x for q, _ in pairs for x in q)
       op = {'op': 'update', 'root': tgt_spec, 'pairs': pairs, 'asdict': uniq and nolit and rng.random() < 0.6}
       feats.append('update')
